@@ -101,6 +101,50 @@ func runRaceStress(a *args, res *result) {
 	res.count("payload_reads_verified", atomic.LoadInt64(&payloadChecks))
 }
 
+const jitterKeys = 4200
+
+// shrinkJitter: a grown table is drained by the calling goroutine through every
+// shrink threshold while other goroutines keep inserting and deleting a small
+// set of keys, so that the size oscillates around each threshold and shrink
+// attempts are started, abandoned and raced.
+func shrinkJitter(cfg raceCfg, fill func(), store func(int), del func(int), size func() int, seeds []uint64) {
+	n := cfg.goroutines
+	if n > 14 {
+		n = 14
+	}
+	for round := 0; round < 6; round++ {
+		fill()
+		var wg sync.WaitGroup
+		stop := make(chan struct{})
+		for g := 0; g < n; g++ {
+			wg.Add(1)
+			go func(g int) {
+				defer wg.Done()
+				rr := newRng(int64(seeds[g%len(seeds)]), uint64(g)+77+uint64(round)*100)
+				for {
+					select {
+					case <-stop:
+						return
+					default:
+					}
+					k := rr.intn(96)
+					if rr.intn(2) == 0 {
+						store(k)
+					} else {
+						del(k)
+					}
+				}
+			}(g)
+		}
+		for k := jitterKeys - 1; k >= 96; k-- {
+			del(k)
+		}
+		close(stop)
+		wg.Wait()
+		_ = size()
+	}
+}
+
 func runRaceCfg(cfg raceCfg, r rng, res *result) {
 	old := runtime.GOMAXPROCS(cfg.procs)
 	defer runtime.GOMAXPROCS(old)
@@ -177,6 +221,18 @@ func runRaceCfg(cfg raceCfg, r rng, res *result) {
 			}(g)
 		}
 		wg.Wait()
+		// shrink-jitter phase: a grown table is drained through every shrink
+		// threshold while other goroutines keep its size jittering around them
+		m2 := newMap(mapSpec{Flavor: cfg.kind, Hint: noHint, NKeys: jitterKeys})
+		shrinkJitter(cfg, func() {
+			for k := 0; k < jitterKeys; k++ {
+				m2.Store(k, next(k))
+			}
+		}, func(k int) { m2.Store(k, next(k)) }, m2.Delete, m2.Size, seeds)
+		if st, ok := mapStats(m2); ok {
+			res.count("growths", st.TotalGrowths)
+			res.count("shrinks", st.TotalShrinks)
+		}
 		if st, ok := mapStats(m); ok {
 			res.count("growths", st.TotalGrowths)
 			res.count("shrinks", st.TotalShrinks)
@@ -277,6 +333,16 @@ func runRaceCfg(cfg raceCfg, r rng, res *result) {
 			}(g)
 		}
 		wg.Wait()
+		c2 := newCache(cacheSpec{Flavor: cfg.kind, Ctor: "New", OptMask: 1 | 2, DefExp: time.Hour, Interval: time.Millisecond, NKeys: jitterKeys})
+		shrinkJitter(cfg, func() {
+			for k := 0; k < jitterKeys; k++ {
+				c2.Set(k, next(k), time.Hour)
+			}
+		}, func(k int) { c2.Set(k, next(k), time.Hour) }, c2.Delete, c2.Count, seeds)
+		if st, ok := c2.Stats(); ok {
+			res.count("growths", st.TotalGrowths)
+			res.count("shrinks", st.TotalShrinks)
+		}
 		if st, ok := c.Stats(); ok {
 			res.count("growths", st.TotalGrowths)
 			res.count("shrinks", st.TotalShrinks)
